@@ -1,4 +1,4 @@
 ----------------------------- MODULE MC_Listener -----------------------------
 EXTENDS Listener, TLC, Json
-Done == conn = "closed" => PrintT(<<"CASE", ToJson([endpoint |-> endpoint, path |-> path, stage |-> IF path[Len(path)] \in RpcKinds THEN "rpc" ELSE Stages[stage]])>>)
+Done == conn = "closed" => PrintT(<<"CASE", ToJson([endpoint |-> endpoint, path |-> path, stage |-> IF path[Len(path)] \in RpcKinds THEN "rpc" ELSE IF Len(path) = Len(Stages) /\ path[Len(path)] \notin BadKinds THEN "rpcbody" ELSE Stages[stage]])>>)
 =============================================================================
